@@ -36,7 +36,7 @@ PROBES = ["waiter_cancelled_while_subscribed", "subscriber_block_left_by_excepti
           "truthy_with_pending_take", "packet_hook_swallowed", "illegal_followup_rejected", "lifecycle_hook_raised",
           "send_orig_by_addon", "mutated_forward", "take_false_subscriber_saw_original", "late_send_of_observed_original",
           "drop_after_take", "command_channel", "hook_raised", "subscriber_predicate_raised", "waiting_subscriber_asked",
-          "two_waiting_subscribers_same_message", "subscribed_from_inside_a_handler", "object_hook_raised", "object_update_hooks",
+          "two_waiting_subscribers_same_message", "subscribed_from_inside_a_handler", "coroutine_subscriber_ran", "object_hook_raised", "object_update_hooks",
           "object_kill_hooks", "object_hook_raised_then_others_ran"]
 COMPONENTS = {
     "real": ["AddonManager.init / _call_all_addon_hooks / _call_module_hooks / _try_call_hook / handle_lludp_message "
@@ -82,9 +82,11 @@ def gen_plan(rng: random.Random, tier: str) -> dict:
         # keep the ones after it from being notified
         "plain_subs": rng.choice([[], ["observe"], ["raise", "observe"], ["observe", "raise", "observe"],
                                   ["pred_raise", "observe"], ["observe", "pred_raise", "raise", "observe"],
-                                  ["rearm", "observe"], ["observe", "rearm"]]),
+                                  ["rearm", "observe"], ["observe", "rearm"],
+                                  ["async_observe", "observe"], ["observe", "async_observe", "raise", "observe"]]),
         # the same on every region's handler
-        "plain_subs_region": rng.choice([[], [], ["observe"], ["raise", "observe"], ["pred_raise", "observe"]]),
+        "plain_subs_region": rng.choice([[], [], ["observe"], ["raise", "observe"], ["pred_raise", "observe"],
+                                         ["async_observe", "observe"]]),
     }
     quiet = rng.random() < 0.2   # mostly well-behaved addons
     steps = []
@@ -104,10 +106,19 @@ def gen_plan(rng: random.Random, tier: str) -> dict:
     obj_tags: List[int] = []
     n = rng.randint(3, 40 if big else 22)
     k = 0
+    # a file-based addon next to the scripted ones: it gets edited (valid, broken, gone) while traffic flows; the
+    # reloader looks at the file at most every 2 s
+    file_addon = rng.random() < 0.12
+    cfg["file_addon"] = file_addon
     for _ in range(n):
         t = round(t + rng.choice([0.0, 0.001, 0.01, 0.05, 0.1]), 4)
         r = rng.choice(cfg["regions"][0])
         x = rng.random()
+        if file_addon and rng.random() < 0.25:
+            if rng.random() < 0.5:
+                steps.append({"at": t, "op": "edit_addon", "content": rng.choice(["v2", "syntax", "syntax", "raise",
+                                                                                   "gone", "v3"])})
+            t = round(t + rng.choice([0.5, 2.05, 2.05, 4.1]), 4)       # let reload windows pass
         if x < 0.12:
             steps.append({"at": t, "op": "subscribe", "level": rng.choice(["session", "region"]), "r": r,
                           "names": rng.choice([["ChatFromViewer"], ["ChatFromSimulator"],
@@ -514,7 +525,63 @@ def run_plan(plan: dict) -> RunResult:
 
         cur_tag = [None]
         addons = [ScriptedAddon(i) for i in range(cfg["n_addons"])]
-        world = UdpWorld(env, cfg, addons=addons, logger=RecordingLogger())
+        addon_paths, mtime_of = [], None
+        if cfg.get("file_addon"):
+            import os
+            import sys
+            import tempfile
+            from hsim.props import c07_file_hook
+            scratch = tempfile.mkdtemp(prefix="hsim-c07-")
+            fpath = os.path.join(scratch, "hsimfileaddon.py")
+            vtimes = {}
+
+            def write_addon(content):
+                bodies = {
+                    "syntax": "def broken(:\n    pass\n",
+                    "raise": "raise RuntimeError('scripted: addon file fails while loading')\n",
+                }
+                if content == "gone":
+                    if os.path.exists(fpath):
+                        os.unlink(fpath)
+                    vtimes.pop(fpath, None)
+                    return
+                src = bodies.get(content) or (
+                    "from hsim.props import c07_file_hook as H\n"
+                    "from hippolyzer.lib.proxy.addon_utils import BaseAddon\n"
+                    f"VERSION = {content!r}\n"
+                    "class FileAddon(BaseAddon):\n"
+                    "    def handle_init(self, session_manager):\n        H.record('init', VERSION)\n"
+                    "    def handle_unload(self, session_manager):\n        H.record('unload', VERSION)\n"
+                    "    def handle_lludp_message(self, session, region, message):\n"
+                    "        H.record('lludp', VERSION, message.name)\n"
+                    "addons = [FileAddon()]\n")
+                with open(fpath, "w") as f:
+                    f.write(src)
+                vtimes[fpath] = vtimes.get("_n", 1000.0) + 1.0
+                vtimes["_n"] = vtimes[fpath]
+
+            def file_sink(what, version, *a):
+                rec.add(kind="file_addon", what=what, version=version)
+                res.probe("file_addon_" + what)
+            c07_file_hook.SINK = file_sink
+            write_addon("v1")
+            addon_paths = [fpath]
+            mtime_of = lambda path_: vtimes.get(str(path_))     # noqa: E731
+            env._patch(sys, "dont_write_bytecode", True)
+
+            def cleanup_file_addon():
+                import shutil
+                c07_file_hook.SINK = None
+                shutil.rmtree(scratch, ignore_errors=True)
+                for name_ in [m_ for m_ in sys.modules if m_.startswith("hippolyzer.user_addon_hsimfileaddon")]:
+                    sys.modules.pop(name_, None)
+                if scratch in sys.path:
+                    sys.path.remove(scratch)
+                rp = os.path.realpath(scratch)
+                if rp in sys.path:
+                    sys.path.remove(rp)
+            env.cleanups.append(cleanup_file_addon)
+        world = UdpWorld(env, cfg, addons=addons, logger=RecordingLogger(), addon_paths=addon_paths, mtime_of=mtime_of)
         model = WireModel(world, eager=not cfg.get("deferred", True))
         spec = world.login(0, cfg["regions"][0])
         model.add_session(spec)
@@ -550,6 +617,16 @@ def run_plan(plan: dict) -> RunResult:
 
         keep_alive = []
 
+        def make_async(i, level):
+            async def _h(msg):
+                tag = tag_of_message(msg)
+                if tag is not None:
+                    res.probe("coroutine_subscriber_ran")
+                    async_seen[(level, i, tag)] = async_seen.get((level, i, tag), 0) + 1
+            return _h
+        async_seen: Dict[tuple, int] = {}
+        dispatched: Dict[tuple, int] = {}      # (level, tag) -> times the handler of that level dispatched it
+
         def make_pred(i, level):
             def _p(msg):
                 # a predicate written for one message shape, asked about another
@@ -559,6 +636,17 @@ def run_plan(plan: dict) -> RunResult:
                 rec.add(kind="plain_pred_raised", idx=i, level=level)
                 raise make_exc("KeyError", "subscriber predicate")
             return _p
+        def make_census(level):
+            def _h(msg):
+                tag = tag_of_message(msg)
+                if tag is not None:
+                    dispatched[(level, tag)] = dispatched.get((level, tag), 0) + 1
+            return _h
+        for level, handlers in (("session", [session.message_handler]),
+                                ("region", [r_.message_handler for r_ in session.regions])):
+            for handler_ in handlers:
+                for nm in ("ChatFromViewer", "ChatFromSimulator", "ObjectUpdate"):
+                    handler_.subscribe(nm, make_census(level))
         for level, handlers, kinds in [("session", [session.message_handler], cfg.get("plain_subs", [])),
                                        ("region", [r_.message_handler for r_ in session.regions],
                                         cfg.get("plain_subs_region", []))]:
@@ -570,7 +658,8 @@ def run_plan(plan: dict) -> RunResult:
                                                             predicate=make_pred(i, level), take=False))
                         continue
                     for nm in ("ChatFromViewer", "ChatFromSimulator", "ObjectUpdate"):
-                        handler_.subscribe(nm, make_plain(i, kind_, level))
+                        handler_.subscribe(nm, make_async(i, level) if kind_ == "async_observe"
+                                           else make_plain(i, kind_, level))
 
         # ---------------- lifecycle isolation: handle_init / handle_session_init --------------------
         def check_lifecycle(hook, since):
@@ -770,6 +859,11 @@ def run_plan(plan: dict) -> RunResult:
                     loop.call_later(st.get("cancel_after", 0.0), task.cancel)
 
         driver.ops["chat"] = op_chat
+        def op_edit_addon(st):
+            if cfg.get("file_addon"):
+                res.fault("addon_file_edited:" + st["content"])
+                write_addon(st["content"])
+        driver.ops["edit_addon"] = op_edit_addon
         driver.ops["amc"] = op_amc
         driver.ops["hs"] = op_hs
         driver.ops["subscribe"] = op_subscribe
@@ -909,7 +1003,8 @@ def run_plan(plan: dict) -> RunResult:
                 for level, kinds in (("session", cfg.get("plain_subs", [])), ("region", cfg.get("plain_subs_region", []))):
                     calls = [e["idx"] for e in entries if e["kind"] == "plain_sub" and e.get("level", "session") == level]
                     # a subscriber whose predicate failed is not itself notified; everybody else is
-                    want_calls = [i for i, k_ in enumerate(kinds) if k_ != "pred_raise"]
+                    want_calls = [i for i, k_ in enumerate(kinds) if k_ not in ("pred_raise", "async_observe")]
+
                     if calls != want_calls:
                         return violate("C07/isolation/subscriber-skipped", tag=tag, level=level, called=calls,
                                        want=want_calls, subs=kinds)
@@ -1106,6 +1201,23 @@ def run_plan(plan: dict) -> RunResult:
                 if seen.get(key, 0) != 1:
                     violate("C07/wire/copy-count", tag=tag, wire=key[2], direction=key[1], emitted=seen.get(key, 0))
                     break
+        if not stopped:
+            # coroutine subscribers run as tasks: by the end of the run each has seen every dispatched message once
+            n_handlers = {"session": 1, "region": 1}
+            for level, kinds in (("session", cfg.get("plain_subs", [])), ("region", cfg.get("plain_subs_region", []))):
+                for i, k_ in enumerate(kinds):
+                    if k_ != "async_observe":
+                        continue
+                    for (lvl_, tag_), n_ in dispatched.items():
+                        if lvl_ != level:
+                            continue
+                        got_ = async_seen.get((level, i, tag_), 0)
+                        if got_ != n_:
+                            violate("C07/isolation/subscriber-skipped", tag=tag_, level=level, coroutine=True,
+                                    called=got_, want=n_, subs=kinds)
+                            break
+                    if stopped:
+                        break
         if not stopped and any(s["op"] == "disconnect" for s in plan["steps"]):
             calls = [i for (h, i, _) in rec.lifecycle if h == "handle_session_closed"]
             if calls and calls != list(range(cfg["n_addons"])):
